@@ -382,28 +382,42 @@ def registerMsgs (t : Int) : List PMsg → List (Nat × PMsg) → List Cb → Li
 
 def toWMsg (m : PMsg) : WMsg := ⟨m.seq, m.ty, m.payload⟩
 
+/-- the packet type chosen by `_build_packet_impl` -/
+def pktType (c : Conn) (sendKeepAlive : Bool) (msgs : List PMsg) : PType :=
+  match msgs with
+  | [] => if sendKeepAlive ∧ c.status = .connected then .keepAlive else .unknown
+  | m :: _ => m.ty
+
+/-- bookkeeping for a packet that will be sent: next datagram seq, pending ack, callbacks, resend set -/
+def registerPacket (c : Conn) (t : Int) (msgs : List PMsg) : Conn :=
+  let s := seqInc c.seqSending
+  let r := registerMsgs t msgs c.pendingRetryMsg [] []
+  { c with seqSending := s, pendingAcks := aset c.pendingAcks s t,
+           pendingRetryMsg := r.1,
+           pendingCbs := if r.2.1.isEmpty then c.pendingCbs else aset c.pendingCbs s r.2.1,
+           pendingRetry := if r.2.2.isEmpty then c.pendingRetry else aset c.pendingRetry s r.2.2 }
+
+def mkHdr (c : Conn) (t : Int) (ty : PType) (s : Nat) : Header :=
+  ⟨c.isServer, (t / 1024).toNat, ty, s, c.bfPkt.cur.toNat, c.bfPkt.bits, 0, 0⟩
+
+/-- the two packing loops of `_build_packet_impl`: (pack, resend set after, queue after) -/
+def packAll (sz : Sizes) (c : Conn) (t delay : Int) : Pack × List (Nat × PMsg) × List PMsg :=
+  let r1 := packResend sz t delay (sortBySeq c.pendingRetryMsg) {} c.pendingRetryMsg
+  let r2 := packNew sz c.outgoing r1.1
+  (r2.1, r1.2, r2.2)
+
 /-- `_build_packet_impl(current_time, send_keep_alive, resend_delay)` -/
 def buildPacketImpl (sz : Sizes) (c : Conn) (t : Int) (sendKeepAlive : Bool) (delay : Int) :
     Conn × Except Err (Option Packet) :=
-  let (p1, prm1) := packResend sz t delay (sortBySeq c.pendingRetryMsg) {} c.pendingRetryMsg
-  let (p2, kept) := packNew sz c.outgoing p1
-  let ty : PType :=
-    match p2.msgs with
-    | [] => if sendKeepAlive ∧ c.status = .connected then .keepAlive else .unknown
-    | m :: _ => m.ty
-  let c1 := { c with pendingRetryMsg := prm1, outgoing := kept }
+  let pk := packAll sz c t delay
+  let c1 := { c with pendingRetryMsg := pk.2.1, outgoing := pk.2.2 }
+  let ty := pktType c sendKeepAlive pk.1.msgs
   if ty = .unknown then (c1, .ok none)
   else
-    let s := seqInc c.seqSending
-    let (prm2, cbs, rts) := registerMsgs t p2.msgs prm1 [] []
-    let c2 := { c1 with seqSending := s, pendingAcks := aset c1.pendingAcks s t,
-                        pendingRetryMsg := prm2,
-                        pendingCbs := if cbs.isEmpty then c1.pendingCbs else aset c1.pendingCbs s cbs,
-                        pendingRetry := if rts.isEmpty then c1.pendingRetry else aset c1.pendingRetry s rts }
-    let hdr : Header := ⟨c.isServer, (t / 1024).toNat, ty, s, c.bfPkt.cur.toNat, c.bfPkt.bits, 0, 0⟩
-    match create hdr (p2.msgs.map toWMsg) with
-      | .ok pkt => (c2, .ok (some pkt))
-      | .error e => (c2, .error (Err.ofWire e))
+    let c2 := registerPacket c1 t pk.1.msgs
+    match create (mkHdr c t ty c2.seqSending) (pk.1.msgs.map toWMsg) with
+    | .ok pkt => (c2, .ok (some pkt))
+    | .error e => (c2, .error (Err.ofWire e))
 
 /-- `_build_packet()` at clock value `t` -/
 def buildPacket (sz : Sizes) (c : Conn) (t : Int) : Conn × Except Err (Option Packet) :=
